@@ -314,7 +314,11 @@ type ledger struct {
 	sleepAt      int
 	sleepDur     time.Duration
 	expired      atomic.Bool
-	startedAfter atomic.Int32 // Func calls started after the guaranteed expiry
+	startedAfter atomic.Int32 // Func calls started after the blocking call had returned
+	// idle: every other Func call blocks this long (runs with several tasks,
+	// so that the other workers cannot do thousands of evaluations while one
+	// call is blocked).
+	idle time.Duration
 
 	// gfault: the first Grad call writes gval into component 0 (gkind == faultFirst).
 	gkind int
@@ -469,6 +473,8 @@ func (l *ledger) Func(x []float64) float64 {
 	if l.sleepAt > 0 && n == l.sleepAt {
 		time.Sleep(l.sleepDur)
 		l.expired.Store(true)
+	} else if l.idle > 0 {
+		time.Sleep(l.idle)
 	}
 	return v
 }
